@@ -67,11 +67,27 @@ Section W.
     induction fuel as [|fuel IH]; intros s yb yu ops Hb Hu; [reflexivity|].
     destruct ops as [|op r]; [reflexivity|].
     destruct op as [|p|p]; try reflexivity.
-    destruct p as [[p|p|]|[p|p|]|]; try reflexivity.
+    destruct p as [[p|p|]|[p|[p|p|]|]|]; try reflexivity.
     - (* 3: close *)
       cbn [run_ops walk]. destruct (nx r) as [a r1].
       destruct (sm_flags s) eqn:Ef; [apply IH; assumption|].
       match goal with |- context [if ?b then _ else _] => destruct b end; apply IH; cbn; auto using Inv_close.
+    - (* 4: open through another handle *)
+      cbn [run_ops walk]. destruct (nx r) as [h r0]. destruct (nx r0) as [a r1].
+      destruct (64 <=? l_opened (sm_bidi s) + l_opened (sm_uni s)); [reflexivity|].
+      destruct (t_cases a) as [E|E]; rewrite E; change (1 =? 0) with false; change (0 =? 0) with true; cbv iota.
+      + destruct (l_open server 0 (sm_bidi s)) as [[id|] c'] eqn:Eo; cbn [app].
+        * replace (Nz id <? 0)%Z with false by (symmetry; apply Z.ltb_ge; unfold Nz; lia).
+          unfold zN, Nz. rewrite N2Z.id. rewrite (Hok _ _ _ _ _ Hb Eo).
+          change (0 =? 0) with true. cbv iota. apply IH; cbn; [|assumption].
+          destruct (open_ok12 _ _ _ _ _ _ Hb Eo) as [_ H]. exact H.
+        * change (-1 <? 0)%Z with true. cbv iota. apply IH; assumption.
+      + destruct (l_open server 1 (sm_uni s)) as [[id|] c'] eqn:Eo; cbn [app].
+        * replace (Nz id <? 0)%Z with false by (symmetry; apply Z.ltb_ge; unfold Nz; lia).
+          unfold zN, Nz. rewrite N2Z.id. rewrite (Hok _ _ _ _ _ Hu Eo).
+          change (1 =? 0) with false. cbv iota. apply IH; cbn; [assumption|].
+          destruct (open_ok12 _ _ _ _ _ _ Hu Eo) as [_ H]. exact H.
+        * change (-1 <? 0)%Z with true. cbv iota. apply IH; assumption.
     - (* 2: MAX_STREAMS *)
       cbn [run_ops walk]. destruct (nx r) as [a r1]. destruct (nx r1) as [b r2].
       destruct (t_cases a) as [E|E]; rewrite E; cbn [N.eqb]; change (1 =? 0) with false; change (0 =? 0) with true; cbv iota;
